@@ -10,6 +10,7 @@ arguments in the right order, not what those functions compute (C05/C06, not cla
 from . import facts as F
 from .core import Ctx
 from .facts import callee, resolved, strip, peel, walk, ARRAY
+from .facts import lit_value as lit_value_
 from .show import show
 from .symalg import Frac, Poly, PW, Unsupported, same, lf
 import copy
@@ -162,6 +163,39 @@ def r35_pointwise_definitions(facts):
             _cmp(c, "sum_all", where, vals[0][1], fw.alg.atom("sigma[%r]" % fw.alg.atom("a0")), "sum_all(a0)")
         else:
             c.unk("sum_all", where, "sum_all is not `values.iter().sum()` in a form the algebra reads (%s)" % (vals[0][1] if vals else "?"))
+    # ---- sum(k): the operand itself is returned only for k == 0 (anything else must go through the reduction)
+    from .pass_rules import _return_paths
+    from .facts import path_facts
+    for b in _find_fn(facts, "sum"):
+        where = "%s:%d" % (F.rel(b["file"]), b["sp"][0])
+        ps = [p for p in facts.params(b) if p.get("pat")]
+        if len(ps) < 2 or ps[0]["pat"].get("k") != "Binding" or ps[1]["pat"].get("k") != "Binding":
+            c.unk("sum:identity", where, "parameters of sum not recognised")
+            continue
+        selfv, kv = ps[0]["pat"]["v"], ps[1]["pat"]["v"]
+        n_id = 0
+        for ctx, e in _return_paths(facts.root(b)):
+            e0 = strip(e)
+            is_self = (e0.get("k") in ("VarRef", "Deref", "Borrow") and F.var_of(e0) == selfv) or \
+                (e0.get("k") == "Call" and (callee(e0) or "").endswith("::clone") and e0["args"] and F.var_of(e0["args"][0]) == selfv)
+            if not is_self:
+                continue
+            n_id += 1
+            facts_ = path_facts(ctx)
+            ok = False
+            for cond, truth in facts_:
+                cn = strip(cond)
+                if truth and cn.get("k") == "Binary" and cn.get("op") == "Eq":
+                    l, r = strip(cn["l"]), strip(cn["r"])
+                    if (F.var_of(l) == kv and lit_value_(r) == 0) or (F.var_of(r) == kv and lit_value_(l) == 0):
+                        ok = True
+            if ok:
+                c.ok("sum:identity", F.loc(b, e0), "sum returns its operand unchanged only under `dimension_count == 0`")
+            else:
+                c.bad("sum:identity", F.loc(b, e0), "sum can return its operand unchanged on a path that does not imply `%s == 0` (%s): for k >= 1 the summed dimensions are neither added up nor collapsed"
+                      % (kv.split("#")[0], "; ".join("%s is %s" % (show(cn_)[:50], t_) for cn_, t_ in facts_) or "unconditionally"))
+        if n_id == 0:
+            c.ok("sum:identity", where, "sum never returns its operand itself (k = 0 goes through the general path)", nontrivial=False)
     # ---- reshape keeps the values in row-major order (shares / copies the flat buffer unchanged)
     for b in _find_fn(facts, "reshape"):
         where = "%s:%d" % (F.rel(b["file"]), b["sp"][0])
@@ -183,8 +217,17 @@ def r35_pointwise_definitions(facts):
 # ====================================================================================== R34 (C15)
 
 def _closure_in(facts, b):
+    """the closure literal (or the private function passed by name) that a `Box::new(..)` cost constructor returns"""
     cl = [x for x in facts.closures() if x.get("parent") == b["def"]]
-    return cl[0] if len(cl) == 1 else None
+    if len(cl) == 1:
+        return cl[0]
+    if not cl:
+        items = [n for n in walk(facts.root(b)) if n.get("k") == "FnItem" and (n.get("fn") or {}).get("resolved_local")]
+        if len(items) == 1:
+            fb = facts.body((items[0]["fn"].get("resolved") or items[0]["fn"].get("path")))
+            if fb is not None and len([p for p in facts.params(fb) if p.get("pat")]) == 2:
+                return fb
+    return None
 
 
 def r34_documented_formulas(facts):
@@ -364,9 +407,22 @@ def _composes_by_fold(facts, b, root, run, fold):
                     inner = strip(rhs2["fields"][0]["e"])
                     if F.var_of(inner) == res or (inner.get("k") == "Call" and (callee(inner) or "").endswith("::clone") and F.var_of(inner["args"][0]) == res):
                         stored = True
+    stored = stored or _stored_by_replace(root, res)
     if not stored:
         return None, "the last result is not stored in self.output in a recognised form (Model::backward reads it)"
     return True, ""
+
+
+def _stored_by_replace(root, run):
+    """`self.output.replace(x.clone())` / `self.output.insert(..)` / `self.output = Some(..)` handled elsewhere"""
+    for n in walk(root):
+        if n.get("k") == "Call" and callee(n) in ("core::option::Option::<T>::replace", "core::option::Option::<T>::insert") and len(n["args"]) == 2:
+            r_, ch = F.field_chain(n["args"][0])
+            inner = strip(n["args"][1])
+            if ch and ch[-1] == "output" and (F.var_of(inner) == run or (inner.get("k") == "Call" and (callee(inner) or "").endswith("::clone")
+                                                                      and F.var_of(inner["args"][0]) == run)):
+                return True
+    return False
 
 
 def _composes_in_order(facts, b):
@@ -427,6 +483,7 @@ def _composes_in_order(facts, b):
                     inner = strip(rhs2["fields"][0]["e"])
                     if F.var_of(inner) == run or (inner.get("k") == "Call" and (callee(inner) or "").endswith("::clone") and F.var_of(inner["args"][0]) == run):
                         stored = True
+    stored = stored or _stored_by_replace(root, run)
     if not stored:
         return None, "the last result is not stored in self.output in a recognised form (Model::backward reads it)"
     return True, ""
